@@ -8,6 +8,7 @@ import (
 	"strconv"
 	"strings"
 
+	"verif/internal/convsim"
 	"verif/internal/gensim"
 	"verif/internal/pipeline"
 	"verif/internal/simbuild"
@@ -129,9 +130,52 @@ func cmdCheck(args []string) {
 			os.Exit(1)
 		}
 		fmt.Printf("OK property=%s held on everything explored\n", id)
+	case "C05", "C06", "C07", "C08", "C09":
+		self, _ := os.Executable()
+		res, err := convsim.Check(verifRoot, self, id, tier, seed)
+		if err != nil {
+			exitFor(err)
+		}
+		level := "exploration"
+		if id == "C06" {
+			level = "fault_enumeration"
+		}
+		res.Evidence["rule"] = convRule[id]
+		ev := &gensim.Evidence{PropertyID: id, Tier: tier, Seed: int64(seed), Level: level, Coverage: res.Evidence,
+			Assumptions: convAssumptions, WallS: res.Wall, Violations: res.NViol}
+		if err := gensim.WriteEvidence(verifRoot, ev); err != nil {
+			exitFor(err)
+		}
+		fmt.Printf("histories=%v classes=%v wall=%.1fs violations=%d\n", res.Evidence["evaluations"], res.Evidence["distinct_nontrivial"], res.Wall, res.NViol)
+		for _, l := range res.KnownLines {
+			fmt.Println(l)
+		}
+		if len(res.Violations) > 0 {
+			for i, v := range res.Violations {
+				fmt.Printf("violation root=%s signature=%s\n%s\n", v.Root, v.Signature, v.Detail)
+				fmt.Printf("VIOLATION property=%s replay=%s\n", id, res.Paths[i])
+			}
+			os.Exit(1)
+		}
+		fmt.Printf("OK property=%s held on everything explored\n", id)
 	default:
 		die(2, "no check for %s", id)
 	}
+}
+
+var convAssumptions = []string{
+	"the shape-spec generator and the reference model are independent of /repo but written by the same hand as the checks",
+	"gogo's generator defines the struct types; the framework's ValueFromTerraform/ToTerraformValue and the msgpack codec define what the framework would decode",
+	"custom-type fields are excluded (user hooks); time/duration use harness-supplied lossless attribute types",
+	"programs: the curated corpus (DESIGN.md Appendix B); collections <= 3 entries, depth as in D",
+}
+
+var convRule = map[string]string{
+	"C05": "rapid-drawn histories on one long-lived struct per root type: Scribble (arbitrary prior contents) and Read(X) with X = restart of a written object | framework decode of a state-like value | framework decode of a value with null/unknown anywhere; oracles: reference decode (normal form), reused == fresh target, excluded fields bit-identical, twin carrying payload under every null/unknown gives the same result. distinct = distinct (root, op-kind sequence) classes; every history has >= 1 op",
+	"C06": "fault configuration of the same simulator: single corruption faults enumerated at every site of healthy objects plus seeded fault sets",
+	"C07": "histories on one long-lived struct with every oneof holder preset by Preset ops; Read of values with at most one known non-null branch per group (exact holder oracle, no normal form) or several (no-panic only); WriteEmpty: CopyTo of any active branch / none into the empty object (inactive null, active non-null if payload non-zero). distinct = distinct (root, op-kind sequence) classes",
+	"C08": "plan/echo cycles on one object: plan = framework decode (alternately through the msgpack durable form) of a value with any mix of null/unknown/known, at most one non-null branch per oneof, no null elements, numbers in range; fresh struct <- plan; struct -> same plan object; path-wise oracle on tftypes.Value; next plan derived from the previous result. distinct = distinct (root, cycle count) classes",
+	"C09": "sequences of in-place CopyTo on one long-lived object starting from the empty schema-typed object: Write(fresh or mutated source biased to grow/shrink/empty/nil transitions) and Repeat; after each write the attribute-wise oracle of C09 against the source and the pre-write state. distinct = distinct (root, op-kind sequence) classes",
 }
 
 func cmdReplay(args []string) {
@@ -148,6 +192,18 @@ func cmdReplay(args []string) {
 	}
 	json.Unmarshal(b, &head)
 	switch head.Property {
+	case "C05", "C06", "C07", "C08", "C09":
+		self, _ := os.Executable()
+		sig, detail, err := convsim.ReplayFile(verifRoot, self, args[0])
+		if err != nil {
+			exitFor(err)
+		}
+		if sig != "" {
+			fmt.Printf("replayed signature=%s\n%s\n", sig, detail)
+			fmt.Printf("VIOLATION property=%s replay=%s\n", head.Property, args[0])
+			os.Exit(1)
+		}
+		fmt.Printf("replay of %s: no violation on the current tree\n", args[0])
 	case "C14", "C16", "C18":
 		c, fails, err := gensim.Replay(args[0])
 		if err != nil {
